@@ -157,6 +157,7 @@ func (ctx *Ctx) fireTimeout() {
 	// already, in which case the buffer is full and a send would block this
 	// timer goroutine forever.
 	ctx.resolve(ErrRequestCanceled)
+	verifTick(verifTickCliTimeoutResolved)
 
 	if c := ctx.conn.Load(); c != nil {
 		c.cancel(ctx)
